@@ -481,8 +481,10 @@ class ParserFunctions:
         import math
 
         if expression_list:
+            # fetch the (lazily expanded) argument outside of the try block: TemplateRecursion and
+            # MemoryLimitError raised while expanding it must unwind, not become an error span
+            expression = expression_list[0].strip()
             try:
-                expression = expression_list[0].strip()
                 if not expression:
                     return ""
                 val = expr.expr(expression)
@@ -502,9 +504,10 @@ class ParserFunctions:
         return "0"
 
     def IFEXPR(self, expression_list):
+        # fetch the (lazily expanded) argument outside of the try block, see EXPR
+        expression = expression_list[0].strip()
         try:
-            expression = expression_list[0].strip()
-            evaluation_result = expr.expr(expression_list[0]) if expression else False
+            evaluation_result = expr.expr(expression) if expression else False
         except Exception as err:
             return self._error(err)
 
